@@ -31,8 +31,10 @@ PRIO_MAPS = {"plain": {1: 1, 5: 5, 7: 7},
              "low": {1: 0, 5: 1, 7: 2}}
 COOKIE_MAPS = {"plain": {1: 1, 2: 2, 3: 3},
                "edge": {1: 0, 2: 1 << 63, 3: (1 << 64) - 1}}
-ACTS = {"none": b"", "o3": rb.a_output(3), "o4": rb.a_output(4),
-        "o34": rb.a_output(3) + rb.a_output(4)}
+# concretisation of the action symbols: some lists also push a VLAN tag before an output, so that the frame that
+# leaves is longer than the frame that arrived - counters count what was received (OpenFlow 1.0 5.2, "received")
+ACTS = {"none": b"", "o3": rb.a_vlan_vid(7) + rb.a_output(3), "o4": rb.a_output(4),
+        "o34": rb.a_output(3) + rb.a_vlan_vid(9) + rb.a_output(4)}
 CMDS = {"ADD": rb.FC_ADD, "MOD": rb.FC_MODIFY, "MODS": rb.FC_MODIFY_STRICT,
         "DEL": rb.FC_DELETE, "DELS": rb.FC_DELETE_STRICT}
 FMF_CODES = {0: "full", 1: "overlap", 2: "eperm", 3: "emerg_timeout",
@@ -164,6 +166,8 @@ def match_sym(d):
 def acts_sym(alist):
   ports = []
   for a in alist:
+    if a.get("type") == 1 and a.get("len") == 8:
+      continue                    # the tag pushes that belong to the concretisation of o3 / o34
     if a.get("type") != 0 or a.get("len") != 8:
       return "?" + repr(alist)
     ports.append(int(a["body"][:4], 16))
